@@ -558,15 +558,24 @@ def vectors(run, thorough):
         b = tb(*(rng.choice(pool) for _ in range(3)))
         k = rng.choice([v for v in pool if v != 0])
         run.case(('vec', ta.__name__, tuple(a), tb.__name__, tuple(b), k))
-        ops = [
-            ('add', a + b, tuple(x + y for x, y in zip(a, b))),
-            ('sub', a - b, tuple(x - y for x, y in zip(a, b))),
-            ('neg', -a, tuple(-x for x in a)),
-            ('mul', a * k, tuple(x * k for x in a)),
-            ('rmul', k * a, tuple(k * x for x in a)),
-            ('truediv', a / k, tuple(x / k for x in a)),
-            ('floordiv', a // k, tuple(x // k for x in a)),
-        ]
+        import operator as _op
+        ops = []
+        for name, f, args, exp in (
+                ('add', _op.add, (a, b), tuple(x + y for x, y in zip(a, b))),
+                ('sub', _op.sub, (a, b), tuple(x - y for x, y in zip(a, b))),
+                ('neg', _op.neg, (a,), tuple(-x for x in a)),
+                ('mul', _op.mul, (a, k), tuple(x * k for x in a)),
+                ('rmul', _op.mul, (k, a), tuple(k * x for x in a)),
+                ('truediv', _op.truediv, (a, k), tuple(x / k for x in a)),
+                ('floordiv', _op.floordiv, (a, k),
+                 tuple(x // k for x in a))):
+            try:
+                ops.append((name, f(*args), exp))
+            except Exception as e:
+                # (k is never zero: nothing here may raise)
+                run.violation('vector/%s' % name, 'vector operation raised',
+                              {'a': repr(a), 'b': repr(b), 'k': k,
+                               'error': repr(e)})
         for name, got, exp in ops:
             run.count('vector.ops')
             if tuple(got) != exp or type(got) is not ta:
